@@ -696,6 +696,13 @@ class Strptime(Op):
             return rng.choice(["0", " ", "-", "+"]) + text
         return text.replace(":", "-", 1) if ":" in text else text.replace("-", "/", 1)
 
+    sibling_rate = 0.3
+
+    def sibling(self, a, rng):
+        """The same text and format read again under another calendar mode (one process, module-level state)."""
+        m, c, data, fmt = a
+        return [(rng.choice(T.OTHER_MODES[m]), c, data, fmt)]
+
     def line(self, a):
         return "strptime %s %s %s %s" % (a[0], cfg_str(a[1]), hx(a[2]), hx(a[3]))
 
@@ -884,4 +891,5 @@ KNOWN_PREDICATES = {F14: _f14}
 
 
 def ops():
-    return [Strftime(), StrfBad(), Strptime(), RoundTrip(), Sweep()]
+    import strf2ops
+    return [Strftime(), StrfBad(), Strptime(), RoundTrip(), Sweep(), strf2ops.Strftime2Op()]
